@@ -9,7 +9,7 @@ From Verif Require Import Base.GoSem Box.BoxGen Box.TableGrid Box.TableGridSpec 
   Box.BlockInInlineProofs Box.BlockInInlineTotal Box.BoxSim Box.BoxWfProofs Box.BoxTotal Box.ElementsProofs
   Box.TableGridOverlap Box.TableGridOverlapBox Box.ElementGen Box.ElementGenProofs
   Box.RunInv Box.RunSim Box.RunFlexGrid Box.RunWf Box.RunIIB Box.RunBII Box.RunBIITotal Box.RunTableB Box.RunTableTotal
-  Box.RunningProofs.
+  Box.RunningProofs Box.BoxGenMore.
 From Coq Require Import ZArith List Bool.
 Import ListNotations.
 Open Scope Z_scope.
@@ -395,3 +395,40 @@ Example C09_example :
   input_ok example_doc = true /\
   exists t', create_anonymous example_doc = Ok t' /\ wf_root t' = true /\ tables_disjoint t' = true.
 Proof. split; [reflexivity|]. eexists. split; [vm_compute; reflexivity|]. split; reflexivity. Qed.
+
+(* ------------------------------------------------------------------ frame properties (Box/BoxGenMore.v)
+   what AnonymousTableBoxes, FlexBoxes and GridBoxes leave untouched; any tree, no side condition *)
+Theorem C09_leaf_untouched : forall b,
+  parent_t (ty b) = false ->
+  anonymous_table_boxes b = Ok b /\ flex_boxes b = b /\ grid_boxes b = b.
+Proof. exact leaf_untouched. Qed.
+Print Assumptions C09_leaf_untouched.
+
+Theorem C09_running_untouched : forall b,
+  running b = true ->
+  anonymous_table_boxes b = Ok b /\ flex_boxes b = b /\ grid_boxes b = b.
+Proof. exact running_untouched. Qed.
+Print Assumptions C09_running_untouched.
+
+Theorem C09_flex_grid_root_kept : forall b,
+  ty (flex_boxes b) = ty b /\ at_ (flex_boxes b) = at_ b /\ mu (flex_boxes b) = mu b /\
+  ty (grid_boxes b) = ty b /\ at_ (grid_boxes b) = at_ b /\ mu (grid_boxes b) = mu b.
+Proof. exact flex_grid_root_kept. Qed.
+Print Assumptions C09_flex_grid_root_kept.
+
+Theorem C09_flex_grid_idem_untouched : forall b,
+  parent_t (ty b) = false \/ running b = true ->
+  flex_boxes (flex_boxes b) = flex_boxes b /\ grid_boxes (grid_boxes b) = grid_boxes b.
+Proof. exact flex_grid_idem_untouched. Qed.
+Print Assumptions C09_flex_grid_idem_untouched.
+
+(* FlexBoxes / GridBoxes change nothing in a tree (of any depth) without flex / grid containers *)
+Theorem C09_flex_boxes_id_no_flex : forall b,
+  tree (fun x => negb (flex_container_t (ty x))) b = true -> flex_boxes b = b.
+Proof. exact flex_boxes_id_no_flex. Qed.
+Print Assumptions C09_flex_boxes_id_no_flex.
+
+Theorem C09_grid_boxes_id_no_grid : forall b,
+  tree (fun x => negb (grid_container_t (ty x))) b = true -> grid_boxes b = b.
+Proof. exact grid_boxes_id_no_grid. Qed.
+Print Assumptions C09_grid_boxes_id_no_grid.
